@@ -50,6 +50,27 @@ func stringLit(e ast.Expr) ([]byte, bool) {
 	return nil, false
 }
 
+// stringConst finds a package-level `const name = "literal"` (typed or untyped).
+func stringConst(p *pkgFiles, name string) ([]byte, bool) {
+	for _, f := range p.files {
+		for _, d := range f.Decls {
+			gd, ok := d.(*ast.GenDecl)
+			if !ok || gd.Tok != token.CONST {
+				continue
+			}
+			for _, sp := range gd.Specs {
+				vs := sp.(*ast.ValueSpec)
+				for i, n := range vs.Names {
+					if n.Name == name && i < len(vs.Values) {
+						return stringLit(vs.Values[i])
+					}
+				}
+			}
+		}
+	}
+	return nil, false
+}
+
 func nlist(b []byte) string {
 	xs := make([]string, len(b))
 	for i, c := range b {
@@ -181,5 +202,17 @@ func genEebusTable() {
 	fmt.Fprintf(&sb, "Definition eebus_strip_close : list N := %s.\n", nlist(close_))
 	fmt.Fprintf(&sb, "Definition eebus_scans_strings : bool := %v.\n", scans)
 	fmt.Fprintf(&sb, "Definition eebus_unknown_ops : bool := %v.\n", unknown)
+
+	// the SHIP data envelope: the payload placeholder that transformSpineDataIntoShipJson
+	// splices the SPINE payload over, the protocol id and the data message type byte
+	sb.WriteString("\n(* ship/connection.go payloadPlaceholder, model.ShipProtocolId, model.MsgTypeData *)\n")
+	ph, okPh := stringConst(ship, "payloadPlaceholder")
+	mdl := parseDir("model")
+	pid, okPid := stringConst(mdl, "ShipProtocolId")
+	mt, okMt := mdl.intConsts()["MsgTypeData"]
+	fmt.Fprintf(&sb, "Definition ship_payload_placeholder : list N := %s.\n", nlist(ph))
+	fmt.Fprintf(&sb, "Definition ship_protocol_id : list N := %s.\n", nlist(pid))
+	fmt.Fprintf(&sb, "Definition ship_msg_type_data : N := %d.\n", mt)
+	fmt.Fprintf(&sb, "Definition ship_envelope_consts_found : bool := %v.\n", okPh && okPid && okMt)
 	writeIfChanged("EebusTable.v", sb.String())
 }
